@@ -144,7 +144,8 @@ CMD_CASES = [
     (' lst[1] = [1, 2] ', ['lst', '1'], None),
     ('x.y[3].z[0][1]=v', ['x', 'y', '3', 'z', '0', '1'], 'v'),
     ('top=5', ['top'], '5'),
-    ('a.b={x: 1}', ['a', 'b', 'x'], '1'),        # an override whose value is a flow mapping is still an override (not raw yaml)
+    ('a.b={x: 1}', ['a', 'b', 'x'], '1'),
+    ('m . lr = 0.5', ['m', 'lr'], '0.5'),             # blanks around the components of the key are allowed (and stripped)        # an override whose value is a flow mapping is still an override (not raw yaml)
 ]
 
 
